@@ -70,5 +70,32 @@ run)
   done
   jq -n --arg tier "$TIER" --arg head "$(git -C /repo rev-parse --short HEAD)" --argjson r "$res" '{tier:$tier, repo_head:$head, results:$r}' > "$DIR/detect.$TIER.json"
   ;;
-*) echo "usage: seed.sh confirm|run ..."; exit 2 ;;
+prun)
+  # private run: same as `run` but on a scratch worktree of /repo's HEAD + a copy of h/ whose
+  # go.mod points at it, so that /repo stays free (exploratory; the recorded detect.<tier>.json
+  # comes from `run`). Stack-frame based signatures differ (paths are not under /repo).
+  DIR="$(cd "$1" && pwd)"; TIER="$2"; shift 2
+  name=$(basename "$DIR"); B=/tmp/seedp/$name; rm -rf "$B"; mkdir -p "$B/root/evidence" "$B/root/replays"
+  git -C /repo worktree prune
+  git -C /repo worktree add --detach "$B/wt" HEAD > /dev/null 2>&1 || { echo "cannot create worktree"; exit 2; }
+  trap 'git -C /repo worktree remove --force "$B/wt" >/dev/null 2>&1; rm -rf "$B/wt" "$B/h"' EXIT
+  git -C "$B/wt" apply "$DIR/patch.diff" || { echo "patch does not apply"; exit 2; }
+  rsync -a --exclude bin "$V/h/" "$B/h/"; mkdir -p "$B/h/bin"
+  sed -i "s#=> /repo/pkg/client#=> $B/wt/pkg/client#; s#ledger => /repo#ledger => $B/wt#" "$B/h/go.mod"
+  cp "$V/known_findings.json" "$V/properties.jsonl" "$B/root/"
+  cd "$B/h" && cp "$B/wt/go.sum" go.sum
+  if ! go build -o bin/vcheck ./cmd/vcheck > "$B/build.log" 2>&1; then echo "harness build failed"; tail -5 "$B/build.log"; exit 2; fi
+  for id in "$@"; do
+    s=$(date +%s)
+    if [ "$id" = C33 ]; then
+      VERIF_REPO="$B/wt" VERIF_ROOT="$B/root" ./k5/run.sh "$TIER" > "$B/$id.log" 2>&1; rc=$?
+    else
+      VERIF_ROOT="$B/root" VERIF_TIER="$TIER" bin/vcheck run "$id" > "$B/$id.log" 2>&1; rc=$?
+    fi
+    sigs=$(grep -A1 '^VIOLATION' "$B/$id.log" | grep 'signature=' | sed 's/.*signature=//' | sort -u | head -8 | jq -R . | jq -sc .)
+    echo "$name: $id exit=$rc violations=$(grep -c '^VIOLATION' "$B/$id.log") t=$(( $(date +%s)-s ))s $sigs"
+    grep '^ENGINE-ERROR' "$B/$id.log" | head -2
+  done
+  ;;
+*) echo "usage: seed.sh confirm|run|prun ..."; exit 2 ;;
 esac
